@@ -19,7 +19,8 @@ RULE = ('numbers: for every (convention 0-3, justify r/l, charset, spaces yes/no
         'atmosphere types 0/1/2; geo_random: drawn configuration (also mixed-case/duplicate-letter charsets, deprecated '
         'case argument) and sizes (Hypothesis). Non-trivial = a numbers window containing a length or capacity boundary; '
         'a fix/names case where repair or un-repair changes the name; a geometry within 3 of a capacity or with an '
-        'atmosphere block or with >= 100 columns; a key case with holes. distinct = distinct case JSON.')
+        'atmosphere block or with >= 100 columns; a key case with holes. distinct = distinct case JSON.'
+        ' Also: search call_order = two letter fields (all ordered pairs of convention x kind) asked for the same numbers within one case; right-justified generated geometries are written, re-read with mulgrid(filename) and judged again; random geometries preceded by one of another convention.')
 ASSUMPTIONS = ['the simulator prints a name through (A3,I2): I2 output is right-justified, blank padded (refs/names_ref.py); '
                'no prediction is made for names whose last two characters are digit+blank, two blanks (ambiguous under '
                'Fortran blank handling) - for names containing a letter there the printed form is taken to be the name itself',
@@ -494,6 +495,18 @@ def run_uniq(case, R):
     R.check(u == NR.ordered_unique(s), 'uniqstring', 'uniqstring(%r) = %r' % (s, u))
 
 
+class ProbeCounter(dict):
+    def __init__(self, limit):
+        dict.__init__(self); self.limit = limit; self.probes = 0
+
+    def __contains__(self, k):
+        self.probes += 1
+        if self.probes > self.limit:
+            from vlib.hygiene import Hang
+            raise Hang('search for a free name|%d membership tests in one call, every name of the convention was tried long ago' % self.probes)
+        return dict.__contains__(self, k)
+
+
 def run_key(case, R):
     import mulgrids
     conv, chars, spaces, what = case['conv'], case['chars'], case['spaces'], case['what']
@@ -507,12 +520,17 @@ def run_key(case, R):
         prenames = [justfn(mulgrids.int_to_chars(n, chars=chars, spaces=spaces, length=L), L) for n in case['pre']]
     if len(set(prenames)) != len(prenames):
         return        # duplicate generated names are the 'numbers' search's business
-    d = geo.column if what == 'column' else geo.node if what == 'node' else {}
+    # the dictionary counts its membership tests: a search for a free key that keeps probing long after every name of the
+    # convention has been tried is non-termination, detected by count (deterministic), not by the clock
+    d = ProbeCounter(limit=60 * (cap + 50) + 5000)
+    if what == 'column': geo.column = d
+    elif what == 'node': geo.node = d
     for nm in prenames: d[nm] = nm
     i = case['istart']
     got = 0
     refused_at = None
     for call in range(case['calls']):
+        d.probes = 0
         try:
             with R.lib('new_%s_key' % what, accept=(mulgrids.NamingConventionError,)):
                 if what == 'column': name, i2 = geo.new_column_name(i, justfn, chars, spaces)
